@@ -8,6 +8,7 @@ XNOTE = "Net shim in place of IBC core proof verification / ordered-channel book
 XPROPS = {"C01", "C08", "C09", "C11", "C12", "C16", "C17"}
 checks = {
  "C01": ("model_checking", T, "provider staking / opt-in / key / power-shaping histories x epochs x late channel opening x delayed and batched relay x consumer blocks on the real provider and consumer apps (five units incl. a second Top-N consumer and a small-alphabet unit that reaches several packets in one consumer block); a ledger monitor remembers every set the provider decided; after every consumer block the stored set and the consensus-engine set must equal the set of the last packet received (launch-time set if none), packets must reproduce the provider's stored set and leave in order", "§5 C01"),
+ "C07": ("model_checking", T, "double-voting evidence really signed with harness keys: valid evidence for 6 signer keys (provider key, assigned, replaced-within-U, never-assigned, another validator's, unknown) on two consumers sharing a chain id, 11 single-field mutations, unknown consumer, consumer without client; light-client-attack misbehaviour (3 signer subsets + 8 mutations) verified by the real ibc-go light client against the client created at launch; stake with an unbonding entry and a redelegation; key rotation and time steps around the pruning deadline; every submission is judged in every state reached by sequences of submissions / rotations / blocks", "§5 C07"),
  "C08": ("model_checking", T, "reports of downtime / double-signing from two consumers for current, replaced, never-assigned and unknown keys, forged update ids, validator state changes (jail, opt-out, unbonding, stop), acks and VSC deliveries in five units (full, ack loop, throttle, retry, epoch 3); the provider's decision is recomputed from the pre-state as a decision table (who is jailed, amount, jail time, ack bytes, slash acks recorded / carried / cleared, nobody else touched) and the consumer's one-outstanding-report rule is judged on every step", "§5 C08"),
  "C09": ("model_checking", T, "same search as C08: per delivery the meter rule (handled only with meter >= 0, deduction = effective power, bounce changes nothing), per begin-block the allowance / cap / one-replenishment-per-period rules, per trace the window bound, and on the consumer the send discipline (nothing while in flight or bounced-and-not-yet-due, retry only after the delay, head of queue only, handled packet leaves the queue exactly once)", "§5 C09"),
  "C11": ("model_checking", T, "two rich launched consumers with packets in flight; every way of stopping (owner message, timeout of one or several in-flight packets, injected error acknowledgement, send failure on a closed channel), repeated and for both consumers, interleaved with validator-set changes and waits of 2 min / U-5 s / U; from the stop on the stored set, the pending queue and the channel's send sequence must not move and the key assignment / client binding must stay usable until the first block at or past stop+U, then every store entry owned by the consumer except descriptive records must be gone and the channel closed", "§5 C11"),
@@ -18,6 +19,7 @@ checks = {
  "C05": ("model_checking", T, "all interleavings (to the bound) of assignments of 5 keys by 2 validators on a launched and a launching consumer, opt-in with key, validator creation with 3 keys, full unbonding, stop/deletion and time jumps; injectivity of key->validator from the store in every state and a map-based model predicting the forbidden assignments", "§5 C05"),
  "C06": ("model_checking", T, "same search as C05; in every state and at the end of every block each key the model says is current or was replaced less than an unbonding period ago must resolve to its owner (time steps 5 s, U-5 s, U pin the deadline to the block)", "§5 C06"),
  "C10": ("model_checking", T, "all sequences (to the bound) of create/update/remove/opt-in messages with zero, past, future and equal spawn times, chain-id changes (same / other revision), allow-inactive consumers, and 5 s / unbonding-period block steps; phase edges, INITIALIZED <=> spawn time <=> scheduled exactly once, launch timing and success predicate, recorded genesis and client are judged on every transition; three directed fixtures with 205 / 150+100 / 199+2+3 consumers due at once exercise the 200-per-block limit", "§5 C10"),
+ "C17": ("model_checking", T, "provider OnChanOpenTry over the full grid 7 hop choices x ordering x port x counterparty port x version, OnChanOpenConfirm repeated and for second channels on one client, OnChanOpenInit/Ack on the provider; consumer OnChanOpenInit over 3 hop choices x ordering x counterparty port x version; launches on a pre-existing connection named by two consumers; acceptance is compared with the statement's predicate and the consumer-client-channel relations must be one to one in every reached state; the well-formed handshake runs end to end in the C01 late-open units", "§5 C17"),
  "C19": ("fault_enumeration", T, "part (i): the halt monitor (no BeginBlock/EndBlock error or panic, validator updates acceptable to CometBFT) over the lifecycle, keys, eligibility and provvalset searches; part (ii) (fault injection at external calls) is being added", "§5 C19"),
  "C20": ("model_checking", T, "all sequences (to the bound) of full / partial / cancelling parameter updates on a launched and a registered consumer, stop+deletion, downtime handling and block steps 5 s, U-5 s, U; in-force / pending / schedule records are compared with the timeline rules on every transition and the fraction and jail time actually applied are compared with the parameters in force; a directed fixture with 203 changes due at once exercises the 200-per-block limit", "§5 C20"),
  "C13": ("model_checking", T, "two worlds per node (with / without the operations aimed at consumer X in {1, 10, 0}); eleven consumers so that ids 1 and 10 coexist, both rich (keys incl. replaced ones, opt-ins, three lists, commission, pending infraction change, queued VSC packets, slash acks, reward credit); after every event of every sequence up to the bound every provider-store entry not owned by X must be byte-identical in both worlds", "§5 C13"),
